@@ -403,7 +403,11 @@ def judge_rds(ctx, R, c, h, m, stream):
         ctx.violation("reading the header through a suspending data source with the data split at %s does not give the markers / header "
                       "that the one-buffer read gives: %s" % (bad[:6], detail), {"case": c, "bad_partitions": bad[:20], "impl": detail},
                       signature="suspend-split:%s" % stream)
-    R.corr("suspend", "restart points / results per partition", None if m in (None, "-") else m.split(" || ")[0], main, c, failed)
+    if m not in (None, "-"):
+        mitems = m.split(" || ")[0].split()
+        labels = set(it.split("=")[0] for it in mitems)
+        sub = [it for it in items if it.split("=")[0] in labels]
+        R.corr("suspend", "restart points / results per partition", " ".join(sorted(mitems)), " ".join(sorted(sub)), c, failed)
     ctx.count("%s-suspend" % stream, len(items), ("susp", len(items), hash(main) & 0xffffffff))
 
 
@@ -449,8 +453,15 @@ def run_mk(ctx, R, cases):
         # the same header through a suspending source: every split position when the header is short, else every
         # position around each segment start / length word / save limit, plus random partitions
         spec = susp_spec(SplitMix64(c["markers"][0][2] ^ 0x5a5a), segs, lim)
-        line2 = "rds %s %s %s" % (cfgs, spec, rebuild(segs, tail[:64]).hex())
-        hl.append(line2); ml.append(line2); meta.append((ci, "rds", None))
+        stream2 = rebuild(segs, tail[:64]).hex()
+        hl.append("rds %s %s %s" % (cfgs, spec, stream2))
+        # the extracted model walks lists: on long headers it gets a sample of the partitions
+        mspec = spec
+        if spec.startswith("pts:"):
+            parts = spec[4:].split("/")
+            rs = SplitMix64(len(parts) * 7919 + c["markers"][0][2])
+            mspec = "pts:" + "/".join(rs.shuffle(parts)[:10])
+        ml.append("rds %s %s %s" % (cfgs, mspec, stream2)); meta.append((ci, "rds", None))
         for code, d in ds:
             ctx.count("mk-code-%d" % code, 1, ("mk", code, len(d), lim.get(code, 0)))
     hres = R.harness(hl, lambda i: cases[meta[i][0]])
